@@ -15,7 +15,7 @@ EXTRA = [
 
 def run(tier, seed):
     V = common.Verdict("C11", tier, seed)
-    configs = ["K17"] if tier == "quick" else ["K17", "K20"]
+    configs = ["K17", "K20"]
     for cfg in configs:
         try:
             ctx = lib.Ctx(cfg, EXTRA, only={"w_atan", "w_atan2", "w_phi", "w_pidiv2", "w_negatanneg"})
